@@ -118,6 +118,7 @@ class Ctx:
         self.max_depth = 64
         self.branch_timeout = 5000
         self.hint_timeout = 20000
+        self.arctan_hints = True
         self.queries = 0
         self.solver_s = 0.0
         self.reset_path([])
@@ -130,6 +131,7 @@ class Ctx:
         self.path = []         # branch conditions of this path
         self.path_notes = []   # human readable
         self.taken = []
+        self.decided = {}
         self.prefix = list(prefix)
         self.pending = []
         self.atoms = {}
@@ -333,6 +335,20 @@ class B:
         return "B(%s)" % (s.t,)
 
 
+_BR_RNG = __import__("random").Random(777)
+
+
+def _feasible(base, cond):
+    """may cond hold on the current path?  A model with all inputs pinned to random rationals settles the
+    (usual) feasible case in milliseconds; otherwise the solver is asked, and only `unsat` prunes."""
+    for pins in pinned_queries(CTX, _BR_RNG, 3):
+        r, _ = check_sat(base + pins + [cond], 2000)
+        if r == "sat":
+            return True
+    r, _ = check_sat(base + [cond], CTX.branch_timeout)
+    return r != "unsat"
+
+
 def branch(cond, note=None):
     c = CTX
     cond = z3.simplify(cond)
@@ -340,6 +356,10 @@ def branch(cond, note=None):
         return True
     if z3.is_false(cond):
         return False
+    # a condition already decided on this path (the code often re-evaluates the same test)
+    known = c.decided.get(cond.get_id())
+    if known is not None:
+        return known
     i = len(c.taken)
     if i < len(c.prefix):
         d = c.prefix[i]
@@ -347,9 +367,8 @@ def branch(cond, note=None):
         if i >= c.max_depth:
             raise PathCut()
         base = c.facts()
-        st, _ = check_sat(base + [cond], c.branch_timeout)
-        sf, _ = check_sat(base + [z3.Not(cond)], c.branch_timeout)
-        st, sf = st != "unsat", sf != "unsat"
+        st = _feasible(base, cond)
+        sf = _feasible(base, z3.Not(cond))
         if st and sf:
             c.pending.append(c.taken + [False])
             d = True
@@ -359,6 +378,7 @@ def branch(cond, note=None):
             d = False
         else:
             raise Infeasible()
+    c.decided[cond.get_id()] = d
     c.taken.append(d)
     c.path.append(cond if d else z3.Not(cond))
     c.path_notes.append((note or str(cond)[:80], d))
@@ -756,7 +776,7 @@ def arctan(x):
     ent = CTX.atoms.get(key)
     if ent is None:
         half = Fraction(1, 2)
-        for (av, w) in list(CTX.wangles):
+        for (av, w) in (list(CTX.wangles) if CTX.arctan_hints else []):
             for k in (0, -1, 1, -2, 2):
                 # candidate b = a + k*pi/2 ; tan b = tan a (k even) or -cot a (k odd)
                 A = S(av)
@@ -774,13 +794,16 @@ def arctan(x):
             if ent is not None:
                 break
         if ent is None:
-            # fresh angle theta in (-pi/2, pi/2) with tan(theta) = x, via its own Weierstrass symbol
             th = CTX.fresh("atan")
-            TH = S(Q(th))
-            kind, w = TH._w()
-            si, co, W = TH._sincos()
-            l, r = qeq_terms((si / co).v, x.v)
-            CTX.axioms += [term(l) == term(r), w > -1, w < 1, th > -PI / 2, th < PI / 2] + pi_axioms()
+            if CTX.arctan_hints:
+                # fresh angle theta in (-pi/2, pi/2) with tan(theta) = x, via its own Weierstrass symbol
+                TH = S(Q(th))
+                kind, w = TH._w()
+                si, co, W = TH._sincos()
+                l, r = qeq_terms((si / co).v, x.v)
+                CTX.axioms += [term(l) == term(r), w > -1, w < 1, th > -PI / 2, th < PI / 2] + pi_axioms()
+            # else: the value is an unconstrained symbol (sound over-approximation); only the derivative rule is used
+            CTX.atom_list.append(("atan", th, x.v))
             ent = ("hint", Q(th))
         CTX.atoms[key] = ent
     b = ent[1]
